@@ -38,6 +38,14 @@ CLAIMED = {
    "Seeded polling schedules on a discrete-event clock (1 us grids to multi-second stalls) x start times x carousel delay/interval x target duration/deadline (incl. zero/past) x sizes incl. 0/1 symbol x triggers; never-early oracles in exact rational arithmetic and due-packet liveness at drained polls; panics/hangs are violations.",
    "Subscriber events carry the instants flute uses; pacing tick definition from the code",
    "deterministic discrete-event simulation of the sender clock/poll schedule + timing model (never-early, due-packet liveness)"),
+ "C04": ("exploration", "4.C04",
+   "All datagrams of <= 3 bytes and every single-byte substitution at every header position of every packet of a 23-session corpus (enumerated, in session context), plus seeded sequences of 1-50 faults (random bytes, byte mutation, truncation, extension, splices, field-aware edits of every LCT/EXT_FTI/EXT_FDT/EXT_CENC/EXT_TIME/payload-id field, crafted FDT XML) interleaved with valid traffic into the real receiver; panics (overflow checks + debug assertions on), loop budget, per-push allocation limits via a counting allocator, abort/hang via worker-process isolation, and recovery of a valid session afterwards.",
+   "documented usage is followed (cleanup() after every push); an accepted mutated packet may change that session's state (recovery then uses a fresh TSI)",
+   "deterministic simulation with adversarial-input fault injection (exhaustive short datagrams and header substitutions + seeded mutation sequences) + crash/hang/allocation oracles + recovery oracle"),
+ "C09": ("exploration", "4.C09",
+   "Enumerated receiver-drop points, failing write calls and failing open calls on 20 tiny sessions, plus seeded histories of every kind used elsewhere (clean, lossy, reordered, malformed, late join) x writer faults x crash point x cleanup cadence; an online typestate automaton in the monitoring writer plus length/MD5/prefix oracles.",
+   "on corrupted histories only the announced length/MD5 are used",
+   "deterministic simulation (writer-fault and crash-point injection, enumerated + seeded) + typestate automaton"),
 }
 NOT_APPLICABLE = {
  "C06": "pure codec function of its input (encode/parse of one packet): no schedule, clock, fault or interleaving to simulate; deciding it is input enumeration, not simulation (DESIGN.md s5)",
